@@ -205,10 +205,13 @@ def _(c):
 
     class D:
         J2000 = 2451545.0
-        eop = types.SimpleNamespace(x=xp, y=yp, lod=lod, dx=0, dy=0, dpsi=0, deps=0)
+        eop = types.SimpleNamespace(x=xp, y=yp, lod=lod, dx=0, dy=0, dpsi=0, deps=0, ut1_utc=c.real("ut1_utc"), tai_utc=c.real("tai_utc"))
 
         def change_scale(self, scale):
             return types.SimpleNamespace(julian_century=T, jd=jd)
+
+        # the readings of the date in its OWN scale are unrelated to the UT1 / TT readings the models are defined on (arbitrary label)
+        jd, mjd, d, s, julian_century = c.real("own_jd"), c.real("own_mjd"), c.real("own_d"), c.real("own_s"), c.real("own_julian_century")
     w = c.world()
     date = D()
     zeta, theta, z = w.fn(f"{I80}:_precesion")(date)
@@ -320,7 +323,7 @@ def _grid_chain(tier, rng):
     """dates: 1 Jan / 1 Jul 1975-2015 every 5 years (+ 30 seeded, thorough), real EOP"""
     for y in range(1975, 2016, 5):
         for m in (1, 7):
-            yield {"y": y, "m": m, "d": 1}
+            yield {"y": y, "m": m, "d": 1, "label": (y // 5 + m) % 5}
     # either side of the dates at which a model changes: 1992-02-27, 1997-02-27 (equation of the equinoxes), leap seconds
     for y, m, d in ((1992, 2, 26), (1992, 2, 28), (1994, 6, 15), (1997, 2, 26), (1997, 2, 27), (1997, 2, 28), (1997, 6, 30), (1997, 7, 1), (2012, 6, 30), (2012, 7, 1)):
         yield {"y": y, "m": m, "d": d}
@@ -340,6 +343,9 @@ def _(c):
     from contracts.eopcfg import use_eop
     use_eop(real=True)
     date = Date(c.integer("y"), c.integer("m"), c.integer("d"), 3, 4, 5)
+    lab = [None, "TAI", "TT", "GPS", "UT1"][c.integer("label")]   # the same instant handed over under another scale label: the angles are those of the instant
+    if lab is not None:
+        date = date.change_scale(lab)
     x = [6.9e6 * 0.6, 6.9e6 * 0.5, 6.9e6 * 0.62, 0.0, 0.0, 0.0]
     sv = StateVector(x, date, "cartesian", "ITRF")
     via80 = np.asarray(sv.copy(frame="PEF").copy(frame="TOD").copy(frame="MOD").copy(frame="EME2000"), dtype=float)[:3]
